@@ -279,4 +279,27 @@ PROPS = {
         "quick": {"runs": [{"test": "^TestC11$", "shards": 16, "checks": 80, "timeout": 600}]},
         "thorough": {"runs": [{"test": "^TestC11$", "shards": 16, "checks": 2500, "timeout": 3400}]},
     },
+    "C14": {
+        "title": "Each client receives whole, well-formed, correlated transactions",
+        "level": "exploration",
+        "rule": "TestC14 (bubble): rapid-generated plans of 2-14 requests by 3-8 clients (board fetch up to 60 KiB, 300-entry file list ~40 KiB, "
+                "private messages and broadcasts of 100/33000/40000/60000 bytes aimed at client 1 / everyone, 60 KiB news body, user list, "
+                "keep-alive, 8 KiB chat, board post), issued all at once; every server-side connection is wrapped in a FIFO-fair writer (each "
+                "Write atomic, served in arrival order) and every client reads slowly (4 KiB per fake millisecond), so an implementation that "
+                "emits one transaction in several Writes while another sender waits interleaves deterministically; the same plan is first run "
+                "one request at a time (baseline). TestC14Live: one long-lived server with the production outbox pump, real time, real "
+                "goroutines, GOMAXPROCS in {4,8,16}, rounds of 1-4 concurrent requests per client from 6 clients, quiescence decided "
+                "structurally from goroutine dumps. Oracle: each client's byte stream parses strictly (hlref) into whole transactions with "
+                "consistent field prefixes and no trailing partial frame; every reply has the reply flag and the id of a request sent on that "
+                "connection, at most once; requests answered alone are answered exactly once under load; uniform-payload messages carry one "
+                "message's bytes only; non-trivial (bubble) = some Write had to wait behind another transaction AND a transaction > 32 KiB was "
+                "delivered; (live) = a client received > 64 KiB in the round; distinct = hash(plan)",
+        "assumptions": ["goroutine schedules are sampled, not enumerated; the fair writer removes luck for the multi-Write class only",
+                        "live engine inputs are a pure function of VERIF_SEED, the schedule is not reproducible (the failing round is printed)"],
+        "quick": {"runs": [{"test": "^TestC14$", "shards": 12, "checks": 25, "timeout": 900},
+                           {"test": "^TestC14Live$", "shards": 2, "timeout": 600, "weight": 2}]},
+        "thorough": {"runs": [{"test": "^TestC14$", "shards": 12, "checks": 1200, "timeout": 3400, "group": 0},
+                              {"test": "^TestC14Live$", "shards": 1, "timeout": 900, "group": 1, "weight": 16},
+                              {"test": "^TestC14Live$", "shards": 1, "timeout": 900, "group": 2, "weight": 16, "race": True, "env": {"VERIF_LIVE_BUDGET": "120"}}]},
+    },
 }
